@@ -150,7 +150,7 @@ fn main() {
                     },
                     &tier,
                     seed,
-                    |s, _| c18::run_case(s),
+                    |s, i| c18::run_case_idx(s, i),
                 ),
                 "C19" => checks_e5::run(
                     checks_e5::Plan {
@@ -279,7 +279,7 @@ fn replay(path: &str) -> i32 {
                 "C15" => c15::run_case(s),
                 "C16" => c16::run_case(s),
                 "C17" => c17::run_case(s),
-                "C18" => c18::run_case(s),
+                "C18" => c18::run_case_idx(s, idx),
                 "C19" => c19::run_case(s),
                 "C20" => c20::run_case(s),
                 _ => Default::default(),
